@@ -67,7 +67,7 @@ theorem exec_pja (P : Prog) (s s' : State) (t : Nat) (i : Instr) (rest : List In
 
 theorem pja_other (P : Prog) {s : State} {k : Nat} {a b : Th} (h : OtherRel s k a b)
     (hi : nPja a.code = pjaWant P k a.status) : nPja b.code = pjaWant P k b.status := by
-  rcases h with rfl | rfl | ⟨_, _, rfl⟩ | ⟨hs, rfl⟩
+  rcases h with rfl | rfl | ⟨_, _, _, rfl⟩ | ⟨hs, rfl⟩
   · exact hi
   · exact hi
   · simp [nPja, pjaWant]
